@@ -625,6 +625,23 @@ void World::opMisuse(const Step &s)
                         }
                     }
                 }
+                // ... and so is an arithmetic result that leaves the range, by a
+                // little or by so much that its low 32 bits look legal again
+                if (s.a[4] % 2 == 1) {
+                    static const long pairs[][2] = {
+                        {65536, 65536}, {1L << 20, 1L << 13}, {46341, 46341}, {40000, 40000}, {-65536, 65536},
+                        {3L << 15, 1L << 17}, {(1L << 30) - 1, 4}, {-(1L << 30), 8}, {1L << 16, -(1L << 16)}, {92682, 46341},
+                    };
+                    const long* pr = pairs[s.a[2] % 10];
+                    dd_edge x(forests[fi].f), y(forests[fi].f);
+                    forests[fi].f->createConstant(rangeval(pr[0]), x);
+                    forests[fi].f->createConstant(rangeval(pr[1]), y);
+                    // the factors vary over the domain where there is a live edge to add (0 at most points)
+                    what = "MULTIPLY whose product " + std::to_string(pr[0]) + " * " + std::to_string(pr[1]) + " lies outside the terminal range";
+                    stats.opcount["misuse:product_overflow"]++;
+                    apply(MULTIPLY, x, y, r);
+                    break;
+                }
                 // ... one step beyond them, and far beyond, is refused
                 long big;
                 switch (s.a[2] % 4) {
